@@ -115,7 +115,10 @@ pub fn collect_struct(module: &str, s: &ItemStruct) -> StructInfo {
             } else {
                 other_attrs.push(format!("cfg_attr({norm})"));
             }
-        } else if p.is_ident("doc") || p.is_ident("allow") || p.is_ident("must_use") || p.is_ident("warn") || p.is_ident("deny") {
+        } else if p.is_ident("doc") || p.is_ident("allow") || p.is_ident("must_use") || p.is_ident("warn") || p.is_ident("deny")
+            || p.is_ident("repr") || p.is_ident("non_exhaustive") || p.is_ident("expect") || p.is_ident("forbid")
+        {
+            // layout / lint attributes: no effect on what the derives serialize
         } else {
             other_attrs.push(path_str(p) + &a.meta.require_list().map(|l| format!("({})", l.tokens)).unwrap_or_default());
         }
